@@ -93,6 +93,9 @@ func (c addrConn) RemoteAddr() net.Addr { return c.remote }
 func (n *MemNet) Dialer(kind string) func(ctx context.Context, network, addr string) (net.Conn, error) {
 	return func(ctx context.Context, network, addr string) (net.Conn, error) {
 		addr = norm(addr)
+		if err := ctx.Err(); err != nil {
+			return nil, err // like a real dial: a context that is already cancelled fails with the context's error
+		}
 		if h := n.DialHook; h != nil {
 			if err := h(kind, addr); err != nil {
 				return nil, err
